@@ -65,6 +65,13 @@ func (m *MDP) DecodeFromBytes(data []byte, df gopacket.DecodeFeedback) error {
 			break
 		}
 		t := data[offset]
+		if t != MdpTlvEnd {
+			// every other TLV is a type byte, a length byte and length bytes of value
+			if offset+2 > m.Length || offset+2+int(data[offset+1]) > m.Length {
+				df.SetTruncated()
+				return fmt.Errorf("MDP TLV type %d at offset %d exceeds packet length %d", t, offset, m.Length)
+			}
+		}
 		switch t {
 		case MdpTlvDeviceInfo:
 			offset += 2
